@@ -69,12 +69,18 @@ def _is_U(e):
     return None
 
 
+class NeedDecision(Exception):
+    pass
+
+
 class TransformerRun(object):
     """One path of time_unit_transformer under an assumption on (begin_unit empty?, end_unit empty?)."""
 
-    def __init__(self, f, b_empty, e_empty, ix=None, nodep=None):
+    def __init__(self, f, b_empty, e_empty, ix=None, nodep=None, decisions=None):
         self.f = f
         self.ix = ix
+        self.decisions = decisions if decisions is not None else {}
+        self.equal_units = []
         pnames = [a.arg for a in f.node.args.args]
         self.nodep = nodep or ('node' if 'node' in pnames else 'element' if 'element' in pnames else pnames[1])
         self.ret_scalar = None
@@ -143,9 +149,18 @@ class TransformerRun(object):
             # X == ''
             ul, ur = self.unit_of(l), self.unit_of(r)
             if ul is not None and ur is not None and isinstance(t.ops[0], (ast.Eq, ast.NotEq)):
-                eq = (ul == ur) if ('EMPTY' in (ul, ur)) else None
+                eq = (ul == ur) if ('EMPTY' in (ul, ur) or ul == ur) else None
                 if eq is None:
-                    return None
+                    # two written units compared: both outcomes happen (`ms` against a default of `ms` or of `s`); each is a path of its own,
+                    # and on the equal path the two unit-table entries are one number
+                    key = ast.unparse(t)
+                    if key not in self.decisions:
+                        raise NeedDecision(key)
+                    outcome = self.decisions[key]
+                    eq = outcome if isinstance(t.ops[0], ast.Eq) else not outcome
+                    if outcome:
+                        self.equal_units.append((ul, ur))
+                    return eq
                 return eq if isinstance(t.ops[0], ast.Eq) else not eq
             # b.numerator % b.denominator > 0
             s = ast.unparse(t).replace(' ', '')
@@ -207,8 +222,9 @@ class TransformerRun(object):
         for p, a in zip(ps, c.args):
             if isinstance(a, ast.Name) and a.id == self.nodep:
                 nodep = p
-        sub = TransformerRun(tgt, self.b_empty, self.e_empty, ix=self.ix, nodep=nodep or '#none')
+        sub = TransformerRun(tgt, self.b_empty, self.e_empty, ix=self.ix, nodep=nodep or '#none', decisions=self.decisions)
         sub.run()
+        self.equal_units += sub.equal_units
         self.problems += sub.problems
         return sub
 
@@ -352,10 +368,38 @@ def check_transformer(ix, rep, cls_mod, cls_name, kind, func=None):
             raise AnalysisError('%s.time_unit_transformer vanished' % cls_name)
     rep.analysed(f)
     rep.unit(f.module.rel)
+    def _runs(b_empty, e_empty):
+        """one run per outcome of the comparisons between written units met on the way"""
+        todo = [{}]
+        out = []
+        while todo:
+            dec = todo.pop()
+            try:
+                out.append((dec, TransformerRun(f, b_empty, e_empty, ix=ix, decisions=dict(dec)).run()))
+            except NeedDecision as nd:
+                key = str(nd)
+                if len(dec) > 6:
+                    raise AnalysisError('%s: too many comparisons between units' % f.where)
+                for o in (True, False):
+                    d2 = dict(dec)
+                    d2[key] = o
+                    todo.append(d2)
+        return out
     for b_empty in (False, True):
-        for e_empty in (False, True):
+      for e_empty in (False, True):
+        for dec, run in _runs(b_empty, e_empty):
             case = 'begin_unit=%s,end_unit=%s' % ('absent' if b_empty else 'present', 'absent' if e_empty else 'present')
-            run = TransformerRun(f, b_empty, e_empty, ix=ix).run()
+            if dec:
+                case += ',' + ','.join('%s%s' % ('' if v else 'not ', k.replace(' ', '')) for k, v in sorted(dec.items()))
+            # on a path on which two unit strings compared equal their table entries are one number
+            ren = {}
+            for (u1, u2) in run.equal_units:
+                a_, b_ = 'U[%s]' % u1, 'U[%s]' % u2
+                if u1.startswith('LIT:') or u2.startswith('LIT:'):
+                    continue
+                ren[a_] = ren.get(b_, b_)
+            if ren and run.ret is not None:
+                run.ret = tuple(x.rename(ren) for x in run.ret)
             if kind == 'samples':
                 # evaluate() has rejected bounds that are no whole number of periods before anything is explained
                 run.problems = [(l_, m_) for (l_, m_) in run.problems if 'int(' not in m_]
@@ -377,6 +421,8 @@ def check_transformer(ix, rep, cls_mod, cls_name, kind, func=None):
                     want = num / alg.RatFun.sym('U[D]')
                     wtxt = '%s * U[%s unit] / U[default unit]' % (which, {'B': 'begin', 'E': 'end', 'D': 'default'}[u])
                 got = run.ret[idx]
+                if ren:
+                    want = want.rename(ren)
                 slot = '%s:%s:%s' % (kind, case, 'begin' if which == 'b' else 'end')
                 if got.same(want):
                     rep.ok('R-DIM', f.module.rel, f.qual, slot, wtxt, f.node.lineno)
@@ -882,4 +928,32 @@ def check_forwarding_exact(ix, rep, rule='R-FWD'):
                              '(2.7182818 -> 2.71828), so a constant declared through the API is no longer the literal it stands for' % (mname, ast.unparse(a), why), c.lineno)
                 else:
                     rep.ok(rule, f.module.rel, f.qual, slot, 'forwarded without a lossy rendering', c.lineno)
+    return n
+
+
+def check_reset_keeps_settings(ix, rep, rule='R-CONFIG'):
+    """what set_sampling_period() configured is configuration, not state: reset() (with everything it calls, super() and explicit base-class
+    calls included) writes none of the attributes set_sampling_period() writes.  A reset that re-runs a constructor puts the period back to
+    1 s: the operators built at the next update count every bound in the wrong period."""
+    from sa import effects as E, model as M
+    n = 0
+    seen = set()
+    for mon in M.monitors(ix):
+        if mon.mode != 'online':
+            continue
+        rs = ix.resolve_method(mon.cls, 'reset')
+        sp = ix.resolve_method(mon.cls, 'set_sampling_period')
+        if rs is None or sp is None or (id(rs), id(sp)) in seen:
+            continue
+        seen.add((id(rs), id(sp)))
+        n += 1
+        rep.analysed(rs)
+        settings = set(E.transitive_effects(ix, mon.cls, 'set_sampling_period').writes)
+        touched = sorted(settings & set(E.transitive_effects(ix, mon.cls, 'reset').writes))
+        slot = '%s:reset-keeps-settings' % mon.kind
+        if touched:
+            rep.fail(rule, rs.module.rel, rs.qual, slot, 'reset() (through the methods it calls) assigns %s, which set_sampling_period() configures: after reset() the monitor counts '
+                     'its bounds in the default period again, not in the configured one' % ', '.join('self.' + t for t in touched), rs.node.lineno)
+        else:
+            rep.ok(rule, rs.module.rel, rs.qual, slot, 'reset() writes none of %s' % sorted(settings), rs.node.lineno)
     return n
